@@ -105,14 +105,23 @@ func keyToKid(key id16) (kid id16) {
 }
 
 func kidToKey(kid id16) (key id16) {
+	key, err := keyFromKid(kid)
+	if err != nil {
+		panic(err.Error())
+	}
+	return key
+}
+
+// keyFromKid returns the key for a key ID, or an error if the key ID is not one of ours.
+func keyFromKid(kid id16) (key id16, err error) {
 	copy(key[:], kid[:])
 	for i := 0; i < 3; i++ {
 		if kid[i] != kidStart[i] {
-			panic("keyID does not start with 3 k i d bytes")
+			return key, fmt.Errorf("keyID does not start with 3 k i d bytes")
 		}
 		key[i] = keyStart[i]
 	}
-	return key
+	return key, nil
 }
 
 func kidFromString(s string) id16 {
